@@ -18,6 +18,13 @@ extern asn_TYPE_operation_t asn_OP_NumericString;
 
 asn_constr_check_f NumericString_constraint;
 
+/*
+ * The PER character map of the whole NumericString alphabet (X.691 #30.5.4),
+ * for types which are NumericString without a permitted alphabet of their own.
+ */
+int asn_DEF_NumericString_v2c(unsigned int value);
+int asn_DEF_NumericString_c2v(unsigned int code);
+
 #define NumericString_free          OCTET_STRING_free
 #define NumericString_print         OCTET_STRING_print_utf8
 #define NumericString_compare       OCTET_STRING_compare
